@@ -123,7 +123,7 @@ def run(tier):
     oc.assumptions = TRUSTED
     r = rng(PROP)
     n = 80 if thorough else 24
-    jobs = [(protoprobe.rand_iface(r, thorough), r.randrange(1 << 30), thorough or i % 3 == 0) for i in range(n)]
+    jobs = [((protoprobe.rand_grown_iface if i % 4 == 1 else protoprobe.rand_iface)(r, thorough), r.randrange(1 << 30), thorough or i % 3 == 0) for i in range(n)]
     with concurrent.futures.ProcessPoolExecutor(max_workers=min(14, n)) as ex:
         results = list(ex.map(one_interface, jobs))
     reqs, pend = [], []
